@@ -74,7 +74,7 @@ def sanitize_network_names(network: BooleanNetwork, check_only: bool = False):
     network = copy.copy(network)
     for var in network.variables():
         name = network.get_variable_name(var)
-        if not re.match("^[a-zA-Z0-9_]+$", name):
+        if not re.fullmatch("[a-zA-Z0-9_]+", name):
             if check_only:
                 raise RuntimeError(f"Found unsanitized variable: `{name}`.")
             # Replace all invalid characters with an underscore
